@@ -211,11 +211,12 @@ CHECKS["C14"] = (
     "directions, score keys, global reverse, document order on ties), the groups (single-valued and overlapping), the "
     "collapsed ranking (at most n per key, key-less documents never collapsed), the filter/mask restriction and the "
     "page arithmetic; real searches over random multi-segment indexes with deletions, missing values, column-backed "
-    "and posting-backed facet fields (int, text, datetime, boolean, keyword) are judged by TLC.",
+    "and posting-backed facet fields (int, text, datetime, boolean, keyword), stored-field facets, range facets "
+    "(gap sequences, hardend) and query facets (as sort keys and as groupings, overlapping or not, with an 'other' key) "
+    "are judged by TLC.",
     "DESIGN.md 4.10, 5 (C14)", "Exact regime (scoring.Frequency, dyadic boosts). Where a document lacks a sort key its "
     "position is not fixed by the property: only the relative order of the documents that have all keys, and the "
-    "membership, are judged. Custom facet types (RangeFacet, QueryFacet, FunctionFacet, StoredFieldFacet) and "
-    "collapse_order are not generated.",
+    "membership, are judged. FunctionFacet, DateRangeFacet and collapse_order are not generated.",
     "TLA+ results-view spec (sort/group/collapse/filter/page) as oracle for real searches")
 
 CHECKS["C16"] = (
